@@ -398,3 +398,49 @@ def _envelope(k, nm, formula, text):
 envelope_rms = _envelope(1, "rms", "SIG_SQRT(LOWPASS_OF(cutoff, SIG_SQUARE(sig)))", "the-square-root-of-the-low-pass-of-x^2")
 envelope_abs = _envelope(2, "abs", "LOWPASS_OF(cutoff, SIG_ABS(sig))", "the-low-pass-of-|x|")
 envelope_squared = _envelope(3, "squared", "LOWPASS_OF(cutoff, SIG_SQUARE(sig))", "the-low-pass-of-x^2")
+
+# amdf_filter (nested): the order of the composition and the zero value handed to both stages
+_MAVG = z3.Function("MAVERAGE_OF", INT, REAL, _SIGNAL, _SIGNAL)     # maverage(size)(signal, zero=zero)  (contracts maverage.*)
+_FILT = z3.Function("DIFF_FILTER_OF", REAL, _SIGNAL, _SIGNAL)       # filt(signal, zero=zero), filt captured from amdf (contract 'amdf')
+
+
+class _MaverageOf:
+    def __init__(self, size):
+        self.size = size
+
+
+class _DiffFilter:
+    pass
+
+
+def _amdf_maverage(m, args, kwargs):
+    if len(args) != 1 or kwargs:
+        raise _sym.Unsupported("maverage called with something else than one size")
+    return _MaverageOf(args[0])
+
+
+_amdf_maverage._pyvc_callee = True
+
+
+def _amdf_call(m, f, args, kwargs):
+    if len(args) == 1 and set(kwargs) == {"zero"} and _is_signal(args[0]):
+        if isinstance(f, _MaverageOf):
+            return _MAVG(_sym.to_z3num(f.size), _sym.to_real(kwargs["zero"]), args[0])
+        if isinstance(f, _DiffFilter):
+            return _FILT(_sym.to_real(kwargs["zero"]), args[0])
+    return NotImplemented
+
+
+amdf_filter = Contract(
+    name="amdf.amdf_filter", qual="audiolazy/lazy_analysis.py::amdf.amdf_filter", kind="function", props=["C20"],
+    modes={"any": Mode(params=dict(sig=lambda m, n: z3.Const("sig_in", _SIGNAL), zero=Real, size=Int, filt=lambda m, n: _DiffFilter()),
+                       note="size and filt are captured from the enclosing amdf(lag, size): contract 'amdf'")},
+    # the statement does not say which start memory the averaging stage gets when zero != 0 (|zero - zero| is 0): only zero == 0 is pinned
+    ensures=[("S:moving-average-of-|difference-filter-output|(zero-history)", "implies(zero == 0, result == MAVERAGE_OF(size, zero, SIG_ABS(DIFF_FILTER_OF(zero, sig))))")],
+    globs={"maverage": _amdf_maverage, "abs": _env_abs, "tostream": None},
+    spec_env={"MAVERAGE_OF": UFn(_MAVG, 3), "DIFF_FILTER_OF": UFn(_FILT, 2), "SIG_ABS": UFn(_SABS, 1)},
+    replay="oracles.bounded_adapter:c20", default_elem=Real,
+    stated=["amdf_filter(sig, zero) is maverage(size)(abs(filt(sig, zero=zero)), zero=zero): the moving average of |x[n]-x[n-lag]| (operators uninterpreted; filt: contract 'amdf', maverage: contracts maverage.*)"],
+)
+amdf_filter.call_hook = _amdf_call
+amdf_filter.assumptions = ["MAVERAGE_OF(size, zero, s) stands for maverage(size)(s, zero=zero), DIFF_FILTER_OF(zero, s) for the captured filt(s, zero=zero), SIG_ABS for the sample-wise abs; signals are values of an uninterpreted sort"]
